@@ -177,6 +177,13 @@ type Evaluator struct {
 	// they are written; PartialsMade counts partial applications created
 	PartialArgsAtCall bool
 	PartialsMade      int
+	// The callback of $each and $sift is offered (value, key, object); by the
+	// rule for function values it takes as many of them as it has parameters
+	// (none, or a fourth that is 'no value'). RejectOddObjectCallbacks makes the
+	// two functions fail for callbacks with 0 or more than 3 parameters instead;
+	// OddObjectCallbacks counts such callbacks seen.
+	RejectOddObjectCallbacks bool
+	OddObjectCallbacks       int
 	FittingCallsRejected int
 	// ... the same for signatures with an option in a place where the port
 	// does not honour it ('-' not first, '?' before a mandatory parameter,
